@@ -90,4 +90,50 @@ CONFIG = {
         "assumptions": ["CfgSized", "batch responses shorter than 2^62 bytes"],
         "contradicts": "PatVerif.Props.C05 (decode_batch, present_iff, isolation, evalOne_distinct)",
     },
+    "C06": {
+        "rule": "Directly constructed, validly signed requests of real P-384 clients; every bit (quick: every 9th) of request key, name key id, "
+                "ciphertext and signature flipped; ciphertext extended/truncated; signature by another key, over other contents, (r,N-s) twin, "
+                "r=0, wrong lengths; wrong/empty/leading-zero blind; other or malformed client key; other client's consistent request; "
+                "non-point and short keys; each with the client already cached or not.",
+        "level_text": "VerifyRequest is modelled as a decision chain over abstract primitives; accept_iff (acceptance = request key decodes ∧ 96-byte "
+                      "signature verifies under it over type‖request_key‖name_key_id‖len‖ciphertext ∧ client key decodes ∧ request key = client key "
+                      "blinded with the blind), reject_no_state, accept_state and injectivity of the signed message are Lean theorems for every "
+                      "instantiation of the primitives. The driver instantiates them with executable Lean references (P-384 decompression, ECDSA "
+                      "verification, SHA-384, XMD hash-to-field blinding), so model and Go code are compared on verdict and cache effect with no oracle.",
+        "level_note": "Trusted: Lean kernel, standard axioms, harness. The Exec references are validated against Go's standard library; the abstract "
+                      "theorems do not depend on them. Cryptographic unforgeability is not claimed.",
+        "trusted_base": COMMON_TB + ["PatVerif/Exec references (validated differentially, not proved)"],
+        "assumptions": [],
+        "contradicts": "PatVerif.Props.C06 (accept_iff, reject_no_state, accept_state)",
+    },
+    "C07": {
+        "rule": "Real client requests against real issuers (2 quick / 6 thorough deployments × 2/4 clients): honest; every bit of the request "
+                "(quick: every 13th) by field; truncations at every structural boundary; one-byte extension; (r,N-s) twin; unregistered and near-miss "
+                "origins; sealed to another issuer's name key; signature spliced from another request; re-signed by another key; request key swapped "
+                "and re-signed; random byte strings. HPKE-open and blind-RSA results are oracle columns computed outside Evaluate.",
+        "level_text": "Evaluate is modelled as a decision chain; respond_only_if (a response implies complete parse, HPKE open under the bound AAD, "
+                      "registered origin, request key decodes, signature verifies over the whole request, blind signature made), unregistered_refused, "
+                      "and — under idealised AEAD/signature hypotheses stated in the theorem — only_honest_accepted (every accepted byte string is the "
+                      "honest request or its signature twin) are Lean theorems. Verdict and issuer-blinded request key are compared with the Go code; "
+                      "the blinded key is recomputed by the Lean P-384/XMD reference.",
+        "level_note": "Tamper rejection is a theorem of the symbolic model only (ideal AEAD and signature relative to one honest request); on the real "
+                      "primitives it is observed per bit, not proved. HPKE and blind RSA are oracle parameters; response bytes are compared by length.",
+        "trusted_base": COMMON_TB + ["go-hpke and circl blindrsa as oracles", "PatVerif/Exec references"],
+        "assumptions": ["idealised AEAD/ECDSA hypotheses of only_honest_accepted"],
+        "contradicts": "PatVerif.Props.C07 (respond_only_if, only_honest_accepted)",
+    },
+    "C08": {
+        "rule": "(client, index key) pairs × 4 full client→issuer→attester flows each with fresh blinds (random, leading zeros, ≥ N), nonces, "
+                "challenges and origin names; other client / other index key variants; FinalizeIndex alone with adversarial blind and key encodings.",
+        "level_text": "That the ID equals HKDF(salt = client key, ikm = client key blinded by the index key, info = IssuerOriginAlias) for every request "
+                      "blind (id_is_function_of_client_and_index_key, id_stable) is a Lean theorem from the blinding laws, and the laws are proved for "
+                      "every group of prime order (Mathlib ZMod); distinctness is a theorem under named injectivity hypotheses. The Lean reference "
+                      "(P-384, XMD-SHA-384 hash-to-field, HKDF-SHA-384) computes the ID from client key and index key alone and must equal what the "
+                      "Go attester returns after real flows with fresh randomness.",
+        "level_note": "Trusted: Lean kernel, standard axioms (Mathlib for ZMod), harness, Exec references. HKDF/encoding injectivity is a hypothesis.",
+        "trusted_base": COMMON_TB + ["Mathlib v4.33.0 (ZMod, Field)", "PatVerif/Exec references"],
+        "assumptions": ["P-384 group order is prime", "hkdf_inj, enc_inj in distinct_ids"],
+        "extra_modules": ["PatVerif.Proofs.Group"],
+        "contradicts": "PatVerif.Props.C08",
+    },
 }
